@@ -7,6 +7,7 @@ package parser
 import (
 	"bytes"
 	"strconv"
+	"unicode"
 
 	"github.com/go-python/gpython/py"
 )
@@ -29,6 +30,9 @@ func DecodeEscape(in *bytes.Buffer, byteMode bool) (out *bytes.Buffer, err error
 			cout, err := strconv.ParseInt(string(runes[i:i+size]), 16, 32)
 			if err != nil {
 				return py.ExceptionNewf(py.ValueError, "invalid \\%c escape at position %d", what, i-2)
+			}
+			if cout > unicode.MaxRune {
+				return py.ExceptionNewf(py.ValueError, "illegal Unicode character in \\%c escape at position %d", what, i-2)
 			}
 			if byteMode {
 				out.WriteByte(byte(cout))
